@@ -397,6 +397,7 @@ package transport
 
 // ---------------------------------------------------------------- C09: status codes and content negotiation
 //@ func statusFor [C09]
+//@   safe
 //@   ghost k = 0
 //@   at `errcode.GetErrorKind(errs)` requires arg0 == errs
 //@   at `errcode.GetErrorKind(errs)` ghost k = callres0
@@ -404,6 +405,7 @@ package transport
 //@   ensures k != errcode.KindProtocol ==> res0 == 200
 //@   modifies nothing
 //@ func statusForGraphQLResponse [C09]
+//@   safe
 //@   ghost k = 0
 //@   at `errcode.GetErrorKind(errs)` requires arg0 == errs
 //@   at `errcode.GetErrorKind(errs)` ghost k = callres0
@@ -426,6 +428,7 @@ package transport
 // Without an explicitly configured Content-Type the negotiated type is one of the two GraphQL media types, and
 // an empty Accept header means application/json.
 //@ func determineResponseContentType [C09]
+//@   assumenopanic a configured Content-Type header has at least one value (operator configuration, not client input)
 //@   requires r != nil
 //@   ghost explicit = false
 //@   ghost acc = ""
@@ -436,6 +439,7 @@ package transport
 //@   pure
 // (C07: the configured header maps are shared by all requests and must never be written)
 //@ func mergeHeaders [C09,C07]
+//@   safe
 //@   ensures res0 != nil && local(res0)
 //@   modifies nothing
 //@ trusted (net/http.Header).Add(key, value)
@@ -443,6 +447,7 @@ package transport
 // whatever headers are configured, the response ends up with a Content-Type: one of the configured keys is
 // Content-Type (any case), or application/json is set
 //@ func writeHeaders [C09]
+//@   safe
 //@   requires w != nil
 //@   replay httpContentType.go.tmpl
 //@   ghost seenCT = false
@@ -454,7 +459,9 @@ package transport
 //@   modifies maps
 
 // ---------------------------------------------------------------- C11: websocket protocol (sequential facts only)
+// (assumption: reading a frame does not panic - gorilla/websocket panics only after 1000 reads on a failed connection)
 //@ trusted (messageExchanger).NextMessage() (m, err)
+//@   nopanic
 //@ trusted (messageExchanger).Send(m) (err)
 //@   modifies nothing
 //@ trusted (*wsConnection).handlePossibleError(err, isReadError)
@@ -480,6 +487,7 @@ package transport
 // connection_init, the init function (if any) accepted it, and the ack was written; init itself never touches
 // the executor. Do() only enters the message loop after init() returned true.
 //@ func (*wsConnection).init [C11,C10]
+//@   safe
 //@   requires c != nil
 //@   ghost acked = false
 //@   at `c.write(&message{t: connectionAckMessageType, payload: initJsonAckPayload})` requires m.t == initMessageType && err == nil
@@ -496,8 +504,11 @@ package transport
 //@ trusted (*github.com/gorilla/websocket.Upgrader).Upgrade(w, r, h) (c, err)
 //@ trusted (*github.com/gorilla/websocket.Conn).Subprotocol() (s)
 //@   pure
-//@ trusted (Websocket).injectGraphQLWSSubprotocols()
-//@ func (Websocket).Do [C11]
+//@ trusted (*Websocket).injectGraphQLWSSubprotocols()
+//@ trusted closeReasonForContext(ctx) (s)
+//@   pure
+//@ func (Websocket).Do [C11,C10]
+//@   safe
 //@   requires r != nil && exec != nil && w != nil
 //@   stable wsConnection.exec wsConnection.active
 //@   ghost inited = false
@@ -509,7 +520,8 @@ package transport
 // close(): idempotent - a second close writes nothing, cancels nothing and does not fire the callback again;
 // the first close writes exactly one close frame, closes the socket once and fires the callback once.
 // All of it under the connection mutex (Lock/Unlock balanced on every path).
-//@ func (*wsConnection).close [C11]
+//@ func (*wsConnection).close [C11,C10]
+//@   safe
 //@   requires c != nil
 //@   stable wsConnection.CloseFunc Websocket.CloseFunc
 //@   ghost held = false
@@ -524,7 +536,8 @@ package transport
 //@   ensures calls(CloseFunc) <= 1
 
 // Frames are never written concurrently by these methods: Send only under the mutex.
-//@ func (*wsConnection).write [C11]
+//@ func (*wsConnection).write [C11,C10]
+//@   safe
 //@   requires c != nil
 //@   ghost held = false
 //@   at `c.mu.Lock()` ghost held = true
@@ -535,7 +548,8 @@ package transport
 // run(): the close watcher waits on the context derived for this loop (cancelled when the loop ends, however it
 // ends), subscribe is only reached from a start message, stop cancels only the addressed operation.
 //@ trusted (*wsConnection).closeOnCancelStub()
-//@ func (*wsConnection).run [C11]
+//@ func (*wsConnection).run [C11,C10]
+//@   safe
 //@   requires c != nil && c.exec != nil && c.active != nil
 //@   stable wsConnection.exec wsConnection.active
 //@   ghost derived = nil
@@ -543,7 +557,8 @@ package transport
 //@   at! `c.closeOnCancel(ctx)` requires arg0 == derived
 //@   at `c.subscribe(start, &m)` requires m.t == startMessageType
 //@   ensures calls(WithCancel) == 1
-//@ func (*wsConnection).closeOnCancel [C11]
+//@ func (*wsConnection).closeOnCancel [C11,C10]
+//@   safe
 //@   requires c != nil
 //@   at! `ctx.Done()` requires true
 //@   at `closeReasonForContext(ctx)` requires arg0 == ctx
@@ -562,6 +577,7 @@ package transport
 // c.write(f): runs f and the flush while holding the connection mutex (released on every exit, also if f panics).
 //@ trusted dyn:f()
 //@ func (*sseConnection).write [C12]
+//@   safe
 //@   requires c != nil
 //@   replay sseWrites.go.tmpl
 //@   ghost held = false
@@ -585,10 +601,12 @@ package transport
 // written to again by write (so no ping follows `complete` and nothing touches the ResponseWriter once Do is over:
 // Do calls stopKeepAlive on every exit after it started the keep-alive goroutine).
 //@ func (*sseConnection).close [C12,C05]
+//@   safe
 //@   requires c != nil
 //@   ensures c.closed
 //@   modifies sseConnection.closed
 //@ func (*sseConnection).stopKeepAlive [C12,C05]
+//@   safe
 //@   requires c != nil
 //@   ghost held = false
 //@   at `c.mu.Lock()` ghost held = true
@@ -597,6 +615,7 @@ package transport
 //@   ensures calls(Lock) == 1 && calls(Unlock) == 1 && calls(close) == 1
 //@   ensures c.closed
 //@ func (*sseConnection).flush [C12]
+//@   safe
 //@   requires c != nil
 //@   ghost held = false
 //@   at `c.mu.Lock()` ghost held = true
@@ -604,6 +623,7 @@ package transport
 //@   callsite Flush: requires held
 //@   ensures calls(Lock) == 1 && calls(Unlock) == 1 && calls(Flush) == 1 && !held
 //@ func writeJsonWithSSE [C12]
+//@   safe
 //@   ensures calls(Fprintf) == 1 && calls(Marshal) == 1
 
 // multipart/mixed aggregator: everything is read and written under the aggregator's mutex; nothing pending means
@@ -639,6 +659,7 @@ package transport
 //@   ensures calls(writeJson) + calls(writeIncrementalJson) >= 1 ==> calls(Flush) == 1 && a.initialResponse == nil && len(a.deferResponses) == 0
 //@   ensures calls(Lock) == 1 && calls(Unlock) == 1
 //@ func (*multipartResponseAggregator).Add [C12]
+//@   safe
 //@   requires a != nil
 //@   ghost held = false
 //@   at `a.mu.Lock()` ghost held = true
@@ -737,6 +758,7 @@ package transport
 //@ trusted time.After(d) (ch)
 //@   pure
 //@ func (*wsConnection).nextMessageWithTimeout [C05,C11]
+//@   safe
 //@   requires c != nil
 //@   at! `make(chan message, 1)` requires arg1 >= 1
 //@   at! `make(chan error, 1)` requires arg1 >= 1
@@ -748,6 +770,7 @@ package transport
 // ---------------------------------------------------------------- C09: best-effort errors (SendError)
 // Same as handler.sendError: the JSON error body never goes out untyped.
 //@ func SendError [C09]
+//@   safe
 //@   requires w != nil
 //@   ghost typed = false
 //@   at! `w.Header().Get("Content-Type")` ghost typed = callres0 != ""
@@ -755,5 +778,6 @@ package transport
 //@   at! `w.WriteHeader(code)` requires (typed || calls(Set) == 1) && arg0 == code && calls(Write) == 0
 //@   ensures !panicked ==> calls(WriteHeader) == 1 && calls(Write) == 1
 //@ func SendErrorf [C09]
+//@   safe
 //@   requires w != nil
 //@   at! `SendError(w, code, &gqlerror.Error{Message: fmt.Sprintf(format, args...)})` requires arg0 == w && arg1 == code
